@@ -265,7 +265,7 @@ OBLIGATIONS = [
        sym=dict(n1=R(0, 3), n2=R(0, 4), w=R(0, 4), a1=R(0, 4), a2=R(0, 4), fin=R(1, 2)),
        shards=dict(n1=[0, 3], n2=[0, 2, 4]),
        thorough_shards=dict(n1=[0, 1, 2, 3], n2=[0, 1, 2, 3, 4]),
-       timeout=120, thorough_timeout=400,
+       timeout=300, thorough_timeout=600,
        functions=[CH.SSHChannel.write, CH.SSHChannel._flush_send_buf, CH.SSHChannel.write_eof, CH.SSHChannel.close,
                   CH.SSHChannel._process_window_adjust, CH.SSHChannel._close_send],
        bounds='2 writes (<=3, <=4 bytes), window 0..4, peer pktsize 2, two adjusts 0..4 after write_eof()/close()'),
